@@ -499,6 +499,19 @@ def run_check(pid, tier, seed):
             violations.append({"fn": w["about"], "kind": "derived-refutation", "text": outw, "clause": w["lemma"],
                                "props": [pid], "rendered": outw, "src": w.get("src"), "obligation": "witness/" + w["id"],
                                "input": {"replay_test": w["test"], "output": outw}})
+    # ---- bounded stand-ins by native exhaustive enumeration on the real code (no stubs); a failing case IS a replayed input
+    for w in P.get("native_bounded", []):
+        try:
+            okv, outw = run_native_enum(repo_copy, w, seed, tier)
+        except ToolError as e:
+            undecided.append("native enumeration %s: %s" % (w["id"], e)); continue
+        fns.append({"function": "native enumeration %s (%s)" % (w["id"], w["about"]), "backend": "cargo test (real code, exhaustive over the stated bound)",
+                    "mode": "bounded(%s)" % w["bound"], "status": "SUCCESSFUL" if okv else "FAILED", "solver_us": 0})
+        bounded.append({"harness": w["id"], "bound": w["bound"], "status": "SUCCESSFUL" if okv else "FAILED", "about": w["about"]})
+        if not okv:
+            violations.append({"fn": w["about"], "kind": "native-enumeration", "text": outw, "clause": w["id"], "props": [pid],
+                               "rendered": outw, "src": w.get("src"), "obligation": "enum/" + w["id"],
+                               "input": {"replay_test": w["test"], "failing_case": outw, "replayed_on_real_code": True}})
     # ---- vacuity canary (the toolchain must be able to fail)
     try:
         C = verify_unit("canary", repo_copy, sdir)
@@ -592,6 +605,31 @@ def run_witness(repo_copy, w, seed):
     if not m:
         raise ToolError("witness test gave no verdict:\n" + r.stdout[-1500:])
     return m.group(1) == "CONFIRMED", m.group(0)
+
+def run_native_enum(repo_copy, w, seed, tier="quick"):
+    dst = os.path.join(repo_copy, w["dir"], "tests")
+    os.makedirs(dst, exist_ok=True)
+    name = "verif_" + w["id"]
+    shutil.copy(os.path.join(VERIF, w["test"]), os.path.join(dst, name + ".rs"))
+    env = runner.offline_env({"CARGO_TARGET_DIR": os.path.join(runner.CACHE, "ntarget"), "VERIF_SEED": str(seed), "VERIF_TIER": tier})
+    cmd = ["cargo", "test", "-p", w["package"], "--test", name, "--offline"]
+    if w.get("features"):
+        cmd += ["--features", w["features"]]
+    r = subprocess.run(cmd + ["--", "--nocapture"],
+                       cwd=repo_copy, env=env, stdout=subprocess.PIPE, stderr=subprocess.STDOUT, text=True, timeout=1800)
+    m = re.search(r"ENUM-(FAIL)[^\n]*", r.stdout) or re.search(r"ENUM-(OK)[^\n]*", r.stdout)
+    if m and m.group(1) == "OK":
+        oks = re.findall(r"ENUM-OK[^\n]*", r.stdout)
+        if "test result: ok" not in r.stdout:
+            m = None
+        else:
+            return True, "; ".join(oks)
+    if not m:
+        if "panicked at" in r.stdout:
+            pm = re.search(r"panicked at [^\n]*\n[^\n]*", r.stdout)
+            return False, "the real code panicked during the enumeration: " + (pm.group(0) if pm else "")[:300]
+        raise ToolError("enumeration test gave no verdict:\n" + r.stdout[-1500:])
+    return m.group(1) == "OK", m.group(0)
 
 # ----------------------------------------------------------------------
 def setup():
